@@ -124,6 +124,14 @@ def build_all(verbose=False):
             if rc != 0:
                 info["coq_ok"] = False
                 info["broken_files"] = sorted(set(re.findall(r'File "\./theories/([^"]+)", line', log)))
+                if "Gen/GenCheck.v" in info["broken_files"]:
+                    # which side conditions fail decides which properties lose their tie by table
+                    gf = gencheck_failures()
+                    if gf:
+                        info["gencheck_failed"] = gf
+                        info["broken_files"].remove("Gen/GenCheck.v")
+                        if not info["broken_files"]:
+                            info["coq_ok"] = True
         # 4. OCaml model
         h = extraction_hash()
         odir = os.path.join(BUILD, "ocaml")
@@ -147,6 +155,52 @@ def build_all(verbose=False):
         info["model_ok"] = os.path.exists(os.path.join(odir, "jqmodel"))
         info["build_s"] = round(time.time() - t0, 1)
     return info
+
+
+GEN_TABLES = ["token_tags", "precedences", "keyword_table", "op1_table", "op2_table", "quote_chars", "rule_table", "rule_kind_names",
+              "value_tag_names", "truthy_cases", "copy_cases", "array_proto_names", "obj_proto_names", "str_proto_names", "num_proto_names",
+              "runtime_names", "ws_chars", "comment_chars", "escape_table", "is_type_names", "printf_directives", "compound_table",
+              "native_arities", "call_depth_limit", "fuzzing_loop_limit", "fill_limit", "printf_width_limit"]
+
+
+def gencheck_failures():
+    """Gen/GenCheck.v (side conditions tying the generated tables to the model) does not compile: find out
+    WHICH lemmas fail.  Compiles scratch copies of the file with the failing lemma cut out, until it compiles.
+    Returns [{'lemma': name, 'tables': [generated tables its statement mentions], 'error': text}] or None."""
+    src = open(os.path.join(COQ, "theories", "Gen", "GenCheck.v")).read()
+    work = os.path.join(BUILD, "gencheck")
+    shutil.rmtree(work, ignore_errors=True)
+    os.makedirs(work)
+    path = os.path.join(work, "GenCheckScratch.v")
+    failed = []
+    try:
+        for _ in range(60):
+            open(path, "w").write(src)
+            rc, log = sh("timeout 600 coqc -R %s JQ %s 2>&1" % (os.path.join(COQ, "theories"), path), cwd=work)
+            if rc == 0:
+                return failed
+            m = re.search(r'GenCheckScratch\.v", line (\d+)', log)
+            if not m:
+                return None
+            line = int(m.group(1))
+            offs = [mm.start() for mm in re.finditer(r'^(?:Lemma|Theorem)\s', src, re.M)]
+            pos = sum(len(l) + 1 for l in src.split("\n")[:line - 1])
+            starts = [o for o in offs if o <= pos]
+            if not starts:
+                return None
+            a = starts[-1]
+            e = re.compile(r'\b(?:Qed|Defined)\.').search(src, a)
+            if not e:
+                return None
+            block = src[a:e.end()]
+            name = re.match(r'(?:Lemma|Theorem)\s+([A-Za-z0-9_\']+)', block).group(1)
+            stmt = block.split("Proof.")[0]
+            failed.append({"lemma": name, "tables": [t for t in GEN_TABLES if re.search(r'\b%s\b' % t, stmt)],
+                           "error": " ".join(log.strip().splitlines()[-3:])[:300]})
+            src = src[:a] + "(* cut: %s *)" % name + src[e.end():]
+        return None
+    finally:
+        shutil.rmtree(work, ignore_errors=True)
 
 
 def dep_closure(files):
